@@ -47,6 +47,23 @@ fn render_list<I: Iterator<Item = Entry>>(it: I) -> String {
     format!("[{}]", v.join(","))
 }
 
+pub fn dump_generic<F: Read + Seek>(comp: &mut CompoundFile<F>) -> String {
+    let entries: Vec<Entry> = comp.walk().collect();
+    let mut s = format!("ok {}", render_list(entries.iter().cloned()));
+    for e in entries.iter().filter(|e| e.is_stream()) {
+        let mut v = Vec::new();
+        match comp.open_stream(e.path()).and_then(|mut st| st.read_to_end(&mut v)) {
+            Ok(_) => s.push_str(&format!(" {}", hex(&v))),
+            Err(_) => s.push_str(" err"),
+        }
+    }
+    s
+}
+
+pub fn dump_of<F: Read + Seek>(mut comp: CompoundFile<F>) -> String {
+    dump_generic(&mut comp)
+}
+
 // ------------------------------------------------------------------------------------------
 // the real side
 
@@ -306,16 +323,7 @@ impl Real {
     /// Live logical dump: `D{walk listing}{content of every stream in walk order}`.
     pub fn dump(&mut self) -> String {
         let Some(comp) = self.comp.as_mut() else { return "err nofile".into() };
-        let entries: Vec<Entry> = comp.walk().collect();
-        let mut s = format!("ok {}", render_list(entries.iter().cloned()));
-        for e in entries.iter().filter(|e| e.is_stream()) {
-            let mut v = Vec::new();
-            match comp.open_stream(e.path()).and_then(|mut st| st.read_to_end(&mut v)) {
-                Ok(_) => s.push_str(&format!(" {}", hex(&v))),
-                Err(_) => s.push_str(" err"),
-            }
-        }
-        s
+        dump_generic(comp)
     }
 
     /// `id:slot:total:off:pos:cap:datalen:dirty` of every open handle, by id
@@ -815,6 +823,19 @@ impl RefModel {
         }
         streams(&self.root, &mut s);
         s
+    }
+
+    /// current length of the stream a handle is bound to (through the handle, unflushed data included)
+    pub fn handle_len(&self, id: u32) -> Option<usize> {
+        let (names, _) = self.handles.get(&id)?;
+        match self.find(names) {
+            Some(RNode::Stream { data, .. }) => Some(data.len()),
+            _ => None,
+        }
+    }
+
+    pub fn any_dirty(&self) -> bool {
+        !self.dirty.is_empty()
     }
 
     pub fn all_paths(&self) -> Vec<(String, bool)> {
